@@ -69,7 +69,13 @@ def main():
     out = os.path.join(sdir, 'DETECTION.json')
     old = []
     if os.path.exists(out) and a.ids:
-        old = [r for r in json.load(open(out)) if r['id'] not in ids]
+        prev = json.load(open(out))
+        old = [r for r in prev if r['id'] not in ids]
+        # results of other seeds / checks obtained earlier for the same change are kept
+        byid = {r['id']: r for r in prev}
+        for r in table:
+            for key, v in byid.get(r['id'], {}).get('results', {}).items():
+                r.setdefault('results', {}).setdefault(key, v)
     json.dump(sorted(old + table, key=lambda r: r['id']), open(out, 'w'), indent=1)
     return 0
 
